@@ -1,3 +1,4 @@
+import Desert.Lemmas.RoundTripFull
 import Desert.Lemmas.Misc
 /-!
 # C05 — decoding untrusted bytes is total (partial)
@@ -65,14 +66,14 @@ theorem cursors_in_bounds {α : Type} (p : DProg α) (b : Bytes) (a : α) (s' : 
   run_AllWF p _ a s' (AllWF_new b) h
 
 /-- well-typed values decode without panic: the round-trip theorem excludes every panic node on
-the image of the encoder (headerless declarations) -/
-theorem valid_encodings_never_panic (env : Env) (henv : EnvV0 env) (ty : Ty) (v : Val) (b : Bytes) (st' : EncSt)
+the image of the encoder (any well-formed declarations, evolved or not) -/
+theorem valid_encodings_never_panic (env : Env) (henv : EnvWF env) (ty : Ty) (v : Val) (b : Bytes) (st' : EncSt)
     (fuel : Nat) (he : enc env ty v [] = .ok (b, st')) (hu : v.utf8OK) (hd : v.depth < fuel) (t : Bytes) :
     ∀ w, runCtx (dec env fuel ty) (Ctx.new (b ++ t)) ≠ .panic w := by
   intro w h
   obtain ⟨w', hw⟩ := context_never_panics_alone _ _ (Ctx.new_Inv _) w h
   rw [absCtx_new] at hw
-  have := ((rt_all env henv v).1 ty [] b st' fuel he hu (by simp [StOK]) hd (AbsSrc.new (b ++ t)) t
+  have := ((rt_wf env henv v).1 ty [] b st' fuel he hu (by simp [StOK]) hd (AbsSrc.new (b ++ t)) t
     (WF_new _) (view_new _) rfl).1
   rw [this] at hw
   simp at hw
